@@ -282,12 +282,17 @@ func getEnv() *env {
 			Name: proto.String("c20.proto"), Package: proto.String("c20"), Syntax: proto.String("proto2"),
 			MessageType: []*descriptorpb.DescriptorProto{{Name: proto.String("T"), Field: []*descriptorpb.FieldDescriptorProto{
 				{Name: proto.String("f_int32"), Number: proto.Int32(n32), Label: descriptorpb.FieldDescriptorProto_LABEL_OPTIONAL.Enum(), Type: descriptorpb.FieldDescriptorProto_TYPE_STRING.Enum()}}}},
+			// EF: c20.E of the other pool declares a value that E does not have
+			EnumType: []*descriptorpb.EnumDescriptorProto{{Name: proto.String("E"), Value: []*descriptorpb.EnumValueDescriptorProto{
+				{Name: proto.String("E0"), Number: proto.Int32(0)}, {Name: proto.String("E1"), Number: proto.Int32(1)}, {Name: proto.String("E7"), Number: proto.Int32(7)}}}},
 		}}})
 		if err != nil {
 			fw.Fatal("c20: foreign descriptor: %v", err)
 		}
 		fd, _ := fpool.FindDescriptorByName("c20.T")
 		e.pre["TF"] = starlarkproto.MessageDescriptor{Desc: fd.(protoreflect.MessageDescriptor)}
+		fe, _ := fpool.FindDescriptorByName("c20.E")
+		e.pre["EF"] = starlarkproto.EnumDescriptor{Desc: fe.(protoreflect.EnumDescriptor)}
 		e.fopts = &syntax.FileOptions{Set: true, GlobalReassign: true, TopLevelControl: true, While: true}
 		th := e.thread("c20-helpers")
 		g, err := starlark.ExecFileOptions(e.fopts, th, "c20helpers.star", helperSrc, e.pre)
